@@ -17,39 +17,73 @@ Proof. exact lex_json_esc. Qed.
 Print Assumptions C15_lexer_json_escape.
 
 (* ---- value-carrying sites: the literal evaluates to exactly the original text and ends where the site's text ends *)
-Theorem C15_site_enum_value_partial : forall t rest, safe_dq_raw t = true -> hd_not_quote rest ->
-  lex_str (site_enum_value t ++ rest) = Some (t, rest).
-Proof. exact dq_raw_inert. Qed.
-Print Assumptions C15_site_enum_value_partial.
-Theorem C15_site_meta_key_partial : forall t rest, safe_dq_raw t = true -> hd_not_quote rest ->
-  lex_str (site_meta_key t ++ rest) = Some (t, rest).
-Proof. exact dq_raw_inert. Qed.
-Print Assumptions C15_site_meta_key_partial.
-Theorem C15_site_disc_prop_partial : forall t rest, safe_dq_raw t = true -> hd_not_quote rest ->
-  lex_str (site_disc_prop t ++ rest) = Some (t, rest).
-Proof. exact dq_raw_inert. Qed.
-Print Assumptions C15_site_disc_prop_partial.
-Theorem C15_site_disc_value_partial : forall t rest, safe_dq_raw t = true -> hd_not_quote rest ->
-  lex_str (site_disc_value t ++ rest) = Some (t, rest).
-Proof. exact dq_raw_inert. Qed.
-Print Assumptions C15_site_disc_value_partial.
-Theorem C15_site_query_key_partial : forall t rest, safe_dq_block t = true -> hd_not_quote rest ->
-  lex_str (site_query_key t ++ rest) = Some (t, rest).
-Proof. exact dq_block_inert. Qed.
-Print Assumptions C15_site_query_key_partial.
-Theorem C15_site_header_key_partial : forall t rest, safe_dq_block t = true -> hd_not_quote rest ->
-  lex_str (site_header_key t ++ rest) = Some (t, rest).
-Proof. exact dq_block_inert. Qed.
-Print Assumptions C15_site_header_key_partial.
-Theorem C15_site_media_type_partial : forall t rest, safe_dq_block t = true -> hd_not_quote rest ->
-  lex_str (site_media_type t ++ rest) = Some (t, rest).
-Proof. exact dq_block_inert. Qed.
-Print Assumptions C15_site_media_type_partial.
 (* json.dumps: inert for every string of BMP code points (quotes, backslashes, controls, NUL, lone surrogates included) *)
-Theorem C15_site_default_partial : forall t rest, safe_default t = true -> hd_not_quote rest ->
+
+(* ---- REPAIRED value-carrying sites (fix: commits for F15a/b/i/h/f/j): FULL statements.
+   Model files use json.dumps(x, ensure_ascii=False): inert for every string of Unicode scalar values (what a UTF-8
+   document can contain).  Endpoint files use python_string_literal (ASCII-only escapes): inert for every string. *)
+Theorem C15_lexer_json_raw : forall tq t X, scalar t = true ->
+  lex_go tq Nrm (json_raw t ++ X) = prepend t (lex_go tq Nrm X).
+Proof. exact lex_json_raw. Qed.
+Print Assumptions C15_lexer_json_raw.
+Theorem C15_site_enum_value : forall t rest, scalar t = true -> hd_not_quote rest ->
+  lex_str (site_enum_value t ++ rest) = Some (t, rest).
+Proof. exact json_raw_inert. Qed.
+Print Assumptions C15_site_enum_value.
+Theorem C15_site_meta_key : forall t rest, scalar t = true -> hd_not_quote rest ->
+  lex_str (site_meta_key t ++ rest) = Some (t, rest).
+Proof. exact json_raw_inert. Qed.
+Print Assumptions C15_site_meta_key.
+Theorem C15_site_disc_prop : forall t rest, scalar t = true -> hd_not_quote rest ->
+  lex_str (site_disc_prop t ++ rest) = Some (t, rest).
+Proof. exact json_raw_inert. Qed.
+Print Assumptions C15_site_disc_prop.
+Theorem C15_site_disc_value : forall t rest, scalar t = true -> hd_not_quote rest ->
+  lex_str (site_disc_value t ++ rest) = Some (t, rest).
+Proof. exact json_raw_inert. Qed.
+Print Assumptions C15_site_disc_value.
+Theorem C15_site_default : forall t rest, scalar t = true -> hd_not_quote rest ->
   lex_str (site_default t ++ rest) = Some (t, rest).
-Proof. exact default_inert. Qed.
-Print Assumptions C15_site_default_partial.
+Proof. exact json_raw_inert. Qed.
+Print Assumptions C15_site_default.
+Theorem C15_site_query_key : forall t rest, in_range t = true -> hd_not_quote rest ->
+  lex_str (site_query_key t ++ rest) = Some (t, rest).
+Proof. exact ascii_lit_inert. Qed.
+Print Assumptions C15_site_query_key.
+Theorem C15_site_header_key : forall t rest, in_range t = true -> hd_not_quote rest ->
+  lex_str (site_header_key t ++ rest) = Some (t, rest).
+Proof. exact ascii_lit_inert. Qed.
+Print Assumptions C15_site_header_key.
+Theorem C15_site_media_type : forall t rest, in_range t = true -> hd_not_quote rest ->
+  lex_str (site_media_type t ++ rest) = Some (t, rest).
+Proof. exact ascii_lit_inert. Qed.
+Print Assumptions C15_site_media_type.
+(* repr(str) (the !r site added by the F04g fix): whatever quote repr chooses and whatever Python's Unicode data base
+   classifies as printable above ASCII (oracle pr, with pr_ok: printable => not a surrogate / line separator / out of range) *)
+Theorem C15_site_media_repr : forall pr t rest, pr_ok pr -> in_range t = true ->
+  match rest with c :: _ => c <> 34 /\ c <> 39 | [] => True end ->
+  lex_lit (site_media_repr pr t ++ rest) = Some (t, rest).
+Proof. exact media_repr_inert. Qed.
+Print Assumptions C15_site_media_repr.
+Theorem C15_site_field_comment : forall t, scalar t = true -> single_physical_line (site_field_comment t) = true.
+Proof. exact field_comment_inert. Qed.
+Print Assumptions C15_site_field_comment.
+(* regression: the former witnesses of F15a, F15e, F15f, F15h, F15j now meet the statement *)
+Theorem C15_fixed_witnesses :
+  lex_str (site_enum_value w_quote ++ []) = Some (w_quote, []) /\ lex_str (site_enum_value w_escn ++ []) = Some (w_escn, []) /\
+  single_physical_line (site_field_comment w_cr) = true /\
+  lex_str (site_query_key w_quote ++ []) = Some (w_quote, []) /\ lex_str (site_header_key w_ff ++ []) = Some (w_ff, []) /\
+  lex_str (site_default w_astral ++ []) = Some (w_astral, []) /\
+  lex_str (site_media_type (w_quote ++ w_astral) ++ []) = Some (w_quote ++ w_astral, []).
+Proof. repeat split. Qed.
+Print Assumptions C15_fixed_witnesses.
+Theorem C15_guard_nonvacuous :
+  safe_doc_raw (ex_text ++ [10; 13; 9]) = true /\
+  safe_alias_doc (ex_text ++ [34; 34; 34; 34; 92; 34; 92; 110; 13; 10; 120]) = true /\
+  scalar (ex_text ++ [34; 92; 10; 13; 0; 127; 133; 8232; 128512]) = true /\
+  in_range (ex_text ++ [34; 39; 92; 10; 0; 55296; 128512]) = true.
+Proof. exact guards_nonvacuous. Qed.
+Print Assumptions C15_guard_nonvacuous.
 
 (* ---- docstring sites: the text stays inside one string literal *)
 Theorem C15_site_alias_doc_partial : forall t rest, safe_alias_doc t = true ->
@@ -88,21 +122,8 @@ Proof. exact enum_default_refuted. Qed.
 Print Assumptions C15_refuted_F15l.
 
 (* ---- comment site *)
-Theorem C15_site_field_comment_partial : forall t, safe_field_comment t = true ->
-  single_physical_line (site_field_comment t) = true.
-Proof. exact field_comment_inert. Qed.
-Print Assumptions C15_site_field_comment_partial.
 
 (* ---- the full statement is false at every site: witnesses (each replays on the real generator) *)
-Theorem C15_refuted_F15a : safe_dq_raw w_quote = false /\ lex_str (site_enum_value w_quote ++ []) <> Some (w_quote, []).
-Proof. exact dq_raw_refuted. Qed.
-Print Assumptions C15_refuted_F15a.
-Theorem C15_refuted_F15a_value : safe_dq_raw w_escn = false /\ lex_str (site_enum_value w_escn ++ []) = Some ([99; 10], []).
-Proof. exact dq_raw_refuted_value. Qed.
-Print Assumptions C15_refuted_F15a_value.
-Theorem C15_refuted_F15b : safe_dq_raw w_quote = false /\ lex_str (site_meta_key w_quote ++ []) <> Some (w_quote, []).
-Proof. exact dq_raw_refuted. Qed.
-Print Assumptions C15_refuted_F15b.
 Theorem C15_refuted_F15c : safe_alias_doc w_endq = false /\ site_alias_doc w_endq <> [] /\
   forall v, lex_str (site_alias_doc w_endq ++ []) <> Some (v, []).
 Proof. exact alias_refuted. Qed.
@@ -115,27 +136,9 @@ Theorem C15_refuted_F15d_escape : safe_doc_raw w_bsx = false /\ site_docwriter_r
   lex_str (w_docw_out_bsx ++ []) = None.
 Proof. exact docwriter_refuted_bsx. Qed.
 Print Assumptions C15_refuted_F15d_escape.
-Theorem C15_refuted_F15e : safe_field_comment w_cr = false /\ single_physical_line (site_field_comment w_cr) = false.
-Proof. exact comment_refuted. Qed.
-Print Assumptions C15_refuted_F15e.
-Theorem C15_refuted_F15f : safe_dq_block w_quote = false /\ lex_str (site_query_key w_quote ++ []) <> Some (w_quote, []).
-Proof. exact dq_block_refuted. Qed.
-Print Assumptions C15_refuted_F15f.
-Theorem C15_refuted_F15f_formfeed : safe_dq_block w_ff = false /\ safe_dq_raw w_ff = true /\ lex_str (site_header_key w_ff ++ []) = None.
-Proof. exact dq_block_refuted_ff. Qed.
-Print Assumptions C15_refuted_F15f_formfeed.
 Theorem C15_refuted_F15g : safe_doc_raw q3 = false /\ forall v, lex_str (site_client_title [49;46;48] q3 ++ []) <> Some (v, []).
 Proof. exact client_title_refuted. Qed.
 Print Assumptions C15_refuted_F15g.
-Theorem C15_refuted_F15h : safe_default w_astral = false /\ lex_str (site_default w_astral ++ []) = Some ([55357; 56832], []).
-Proof. exact default_refuted. Qed.
-Print Assumptions C15_refuted_F15h.
-Theorem C15_refuted_F15i : safe_dq_raw w_quote = false /\ lex_str (site_disc_prop w_quote ++ []) <> Some (w_quote, []).
-Proof. exact dq_raw_refuted. Qed.
-Print Assumptions C15_refuted_F15i.
-Theorem C15_refuted_F15j : safe_dq_block w_quote = false /\ lex_str (site_media_type w_quote ++ []) <> Some (w_quote, []).
-Proof. exact dq_block_refuted. Qed.
-Print Assumptions C15_refuted_F15j.
 Theorem C15_refuted_F15k : safe_doc_raw q3 = false /\ forall v, lex_str (site_tag_doc q3 ++ []) <> Some (v, []).
 Proof. exact tag_doc_refuted. Qed.
 Print Assumptions C15_refuted_F15k.
@@ -144,12 +147,6 @@ Proof. exact block_line_refuted. Qed.
 Print Assumptions C15_refuted_F15k_escape.
 
 (* ---- guards are met by non-trivial text (non-ASCII, braces, %; quotes/backslashes/controls where the site escapes) *)
-Theorem C15_guard_nonvacuous :
-  safe_dq_raw ex_text = true /\ safe_dq_block ex_text = true /\ safe_default (ex_text ++ [34; 92; 10; 0; 127; 55296]) = true /\
-  safe_doc_raw (ex_text ++ [10; 13; 9]) = true /\ safe_field_comment (ex_text ++ [34; 92; 10; 12; 8232]) = true /\
-  safe_alias_doc (ex_text ++ [34; 34; 34; 34; 92; 34; 92; 110; 13; 10; 120]) = true.
-Proof. exact guards_nonvacuous. Qed.
-Print Assumptions C15_guard_nonvacuous.
 
 (* ---- every inventoried interpolation site (regenerated from the source on every run) is either not free text (0)
    or one of the modelled sites; bound: the list Gen.T_C15.site_inventory *)
